@@ -84,7 +84,7 @@ impl Property for C06 {
         "a case is a polyline (5-400 edges quick, up to 5000 thorough; lattice regime: integer / dyadic coordinates, exactly representable; float regime: 7 shapes incl. flat axis-aligned runs, long-thin, spirals) with 8-40 rays (generic; through one vertex; through two vertices / along an edge's supporting line; axis-parallel with a zero direction component; nearly parallel to an edge at 1e-9..1e-3 rad; origins inside, outside, behind). Oracle: per-edge 2x2 solve written in the harness. Non-trivial: at least one robust hit on an edge with index >= 4 of a polyline with >= 16 edges. Distinct = distinct canonical JSON."
     }
     fn cases(t: Tier) -> u32 {
-        t.pick(60_000, 2_000_000)
+        t.pick(240_000, 2_000_000)
     }
     fn expected_labels() -> Vec<&'static str> {
         vec!["lattice", "float", "closed", "negative_t_hit", "zero_dir_component", "through_vertex", "near_parallel", "spanning_some", "spanning_none", "boundary_hit_exact", "many_edges", "no_hits"]
